@@ -39,6 +39,7 @@ package dns
 //@   loop * invariant 12 <= off && off <= len(msg)
 //@   loop 2 invariant 0 <= tsigoff && tsigoff <= len(msg) && (i > 0 ==> 12 <= tsigoff) && 0 <= i
 //@   callsite "PutUint16" arcount: arg2 == (callres("Uint16") + 65535) % 65536
+//@   callsite "PutUint16" received: arg2 == (dh.Arcount + 65535) % 65536 && ref(arg1) == ref(msg) && sliceoff(arg1) == sliceoff(msg) + 10
 //@   assert at "arcount := binary.BigEndian.Uint16(msg[10:])" found: hdr(extra).Rrtype == 250 && tsigoff <= off
 //@   assume at "rr = extra.(*TSIG)" typetable: isptrtype(extra, TSIG)
 
